@@ -1103,6 +1103,13 @@ func genFunctionWrapper(n *node) func(*frame) reflect.Value {
 				id = n.interp.runid()
 			}
 			fr := newFrame(f, len(def.types), id)
+			if f.anc == nil {
+				// The global frame keeps the cancellation channel of the last evaluation,
+				// which may have been cancelled: use the current one.
+				n.interp.mutex.RLock()
+				fr.done = reflect.SelectCase{Dir: reflect.SelectRecv, Chan: reflect.ValueOf(n.interp.done)}
+				n.interp.mutex.RUnlock()
+			}
 			d := fr.data
 			for i, t := range def.types {
 				d[i] = reflect.New(t).Elem()
